@@ -320,6 +320,10 @@ class Gen:
             if w < 0.35:
                 ver += 1
                 val = hx(b"v%d" % ver + b"x" * r.choice([0, 10, 100, 200])) if r.random() > 0.08 else hx(b"")     # the empty value is a value
+                if tsize <= 4096 and r.random() < 0.05:
+                    # the largest entries a table takes: 29 + key + value just below the table size, on primary and backups alike
+                    klen = len(bytes.fromhex(key)) if key != "-" else 0
+                    val = hx(bytes([66 + ver % 20]) * (tsize - 29 - klen - r.choice([1, 2, 28, 29, 40])))
                 opts = []
                 c = r.random()
                 if c < 0.2:
